@@ -339,3 +339,43 @@ Proof.
   intros window p m md psi Hw Hp usq s1 s2 d Hd1 Hd2 H1 H2 Hp1 Hp2 Hpsi.
   exact (c_wps_value_is_the_distance_kernels_value window p m 0 md psi Hw Hp s1 s2 d Hd1 Hd2 H1 H2 Hp1 Hp2 Hpsi eq_refl).
 Qed.
+
+(* THE -1 MARKS (psi_neg = true), for the kernel as written: run for its value with the marks requested, the kernel returns
+   the DTW value, that value is the specification cell of an end cell (ie, je) among the psi-relaxed end cells, and the
+   compact array holds the specification matrix EXCEPT that the cells of the last column below row ie - or of the last row
+   right of column je -, the cells the relaxed end skips, read -1 (CWpsMarks.v: the two scans stop at the FIRST minimum of
+   their line, the last column wins only when strictly smaller). *)
+From DV Require Import CWpsMarks.
+
+Theorem C04_c_wps_kernel_marks_as_written :
+  forall (window p m mld : Z) (psi : (nat * nat) * (nat * nat)), (0 <= window)%Z ->
+  let usq := c_to_u (cs_of window p m mld psi SqEuclid) in
+  forall (s1 s2 : list point) (d : nat),
+  (forall q, In q s1 -> List.length q = d) -> (forall q, In q s2 -> List.length q = d) ->
+  (1 <= List.length s1)%nat -> (1 <= List.length s2)%nat ->
+  (psi_1b usq <= List.length s1)%nat -> (psi_2b usq <= List.length s2)%nat ->
+  forall ce ced1 ced2 (wps0 : list cost) (keep : bool) idist,
+  let l1 := Z.of_nat (List.length s1) in let l2 := Z.of_nat (List.length s2) in
+  let W := cw_width l1 l2 window in
+  Z.of_nat (List.length wps0) = ((l1 + 1) * W)%Z -> (idist =? 1)%Z = false ->
+  exists wps' (ie je : nat),
+    c_dtw_warping_paths_ndim ce (cw_shift l1 l2 window) ced1 ced2 wps0 (List.concat s1) l1 (List.concat s2) l2 true keep true (Z.of_nat d)
+      ((l1 + 1) * W)%Z (c_parts_ldiff l1 l2) (c_parts_ldiffr l1 l2 (c_parts_ldiff l1 l2))
+      (c_parts_ldiffc l1 l2 (c_parts_ldiff l1 l2)) (c_parts_window l1 l2 window) W ((l1 + 1) * W)%Z
+      (c_parts_ri1 l1 (c_parts_overlap_left l1 (c_parts_ldiffr l1 l2 (c_parts_ldiff l1 l2)) (c_parts_window l1 l2 window))
+                      (c_parts_overlap_right l1 (c_parts_ldiffr l1 l2 (c_parts_ldiff l1 l2)) (c_parts_window l1 l2 window)))
+      (c_parts_ri2 l1 (c_parts_overlap_left l1 (c_parts_ldiffr l1 l2 (c_parts_ldiff l1 l2)) (c_parts_window l1 l2 window)))
+      (c_parts_ri3 l1 (c_parts_overlap_left l1 (c_parts_ldiffr l1 l2 (c_parts_ldiff l1 l2)) (c_parts_window l1 l2 window))
+                      (c_parts_overlap_right l1 (c_parts_ldiffr l1 l2 (c_parts_ldiff l1 l2)) (c_parts_window l1 l2 window)))
+      (adj_max_step usq) Inf (Fin (adj_penalty usq)) idist false (Z.of_nat (psi_1b usq)) (Z.of_nat (psi_1e usq))
+      (Z.of_nat (psi_2b usq)) (Z.of_nat (psi_2e usq)) false
+    = (CLang.RPlain (sq_repr keep (dtw_value usq s1 s2)), wps', true) /\
+    (dtw_value usq s1 s2 <> Inf -> mget (wps_matrix usq s1 s2) ie je = dtw_value usq s1 s2 /\ In (ie, je) (end_cands usq s1 s2)) /\
+    forall (i : nat) (s : Z), (Z.of_nat i <= l1)%Z -> (0 <= s < W)%Z ->
+      (s + cw_shift l1 l2 window (Z.of_nat i - 1) <= l2)%Z ->
+      ((s + cw_shift l1 l2 window (Z.of_nat i - 1))%Z = 0%Z -> (Z.of_nat i <= cw_ri2 l1 l2 window)%Z) ->
+      let col := Z.to_nat (s + cw_shift l1 l2 window (Z.of_nat i - 1)) in
+      let skipped := (je = List.length s2 /\ col = List.length s2 /\ (ie < i)%nat) \/ (ie = List.length s1 /\ i = List.length s1 /\ (je < col)%nat) in
+      (skipped -> aget wps' (Z.of_nat i * W + s) = Fin (-1)) /\
+      (~ skipped -> aget wps' (Z.of_nat i * W + s) = sq_repr keep (mget (wps_matrix usq s1 s2) i col)).
+Proof. intros window p m mld psi Hw usq s1 s2 d Hd1 Hd2 H1 H2 Hp1 Hp2. exact (c_wps_kernel_marks window p m mld psi Hw s1 s2 d Hd1 Hd2 H1 H2 Hp1 Hp2). Qed.
